@@ -37,6 +37,18 @@ CHECKS["C05"] = (
     "DESIGN.md section 3 / C05",
 )
 
+CHECKS["C01"] = (
+    "Hypothesis tree pairs (spec + named mutation) vs reference content key; pool partition over all nodes; cross-process workers",
+    "Seeded Hypothesis search over pairs of trees (a spec and one of 15 targeted mutations of it, strings built "
+    "from the digest's own framing tokens) built in one registry; content_id equality and is_equal are compared "
+    "in both directions with an independent structural key, for the roots and (through two maps that must stay "
+    "functions, kept over the whole shard) for all pairs of nodes ever built; the same specs are rebuilt in two "
+    "worker processes with different PYTHONHASHSEEDs and a permuted field declaration order. Bounded exploration.",
+    "Trusts Hypothesis, the reference key (pbt/trees.py), blake2b not colliding by chance at >= 8 bytes; floats "
+    "are outside C01's quantifier and not generated.",
+    "DESIGN.md section 3 / C01",
+)
+
 NOT_YET = "check not built yet in this snapshot (see DESIGN.md section 9 build order); nothing is claimed"
 
 
